@@ -65,6 +65,15 @@ fn start_with_connection(connection: Connection, project: LspProject) -> Result<
     }
 }
 
+/// The reason a message could not be cast to a particular method.
+enum CastError<M> {
+    /// The message is for another method. Returns the message so that it
+    /// can be tried as another method.
+    MethodMismatch(M),
+    /// The message is for this method but the parameters are not valid.
+    InvalidParams(String),
+}
+
 struct LspServer<'a> {
     sender: &'a Sender<Message>,
     project: LspProject,
@@ -139,7 +148,11 @@ impl<'a> LspServer<'a> {
             Ok(_params) => {
                 return request::Shutdown::METHOD;
             }
-            Err(req) => req,
+            Err(CastError::MethodMismatch(req)) => req,
+            Err(CastError::InvalidParams(message)) => {
+                self.send_invalid_params(req_id, message);
+                return request::Shutdown::METHOD;
+            }
         };
         let _request = match Self::cast_request::<request::SemanticTokensFullRequest>(req) {
             Ok(params) => {
@@ -165,7 +178,11 @@ impl<'a> LspServer<'a> {
 
                 return request::SemanticTokensFullRequest::METHOD;
             }
-            Err(req) => req,
+            Err(CastError::MethodMismatch(req)) => req,
+            Err(CastError::InvalidParams(message)) => {
+                self.send_invalid_params(req_id, message);
+                return request::SemanticTokensFullRequest::METHOD;
+            }
         };
 
         // Every request must be answered exactly once. Methods that this server
@@ -180,7 +197,9 @@ impl<'a> LspServer<'a> {
         ""
     }
 
-    fn cast_request<T>(request: lsp_server::Request) -> Result<T::Params, lsp_server::Request>
+    fn cast_request<T>(
+        request: lsp_server::Request,
+    ) -> Result<T::Params, CastError<lsp_server::Request>>
     where
         T: lsp_types::request::Request,
         T::Params: DeserializeOwned,
@@ -189,9 +208,21 @@ impl<'a> LspServer<'a> {
             .extract(T::METHOD)
             .map(|val| val.1)
             .map_err(|e| match e {
-                ExtractError::MethodMismatch(n) => n,
-                err @ ExtractError::JsonError { .. } => panic!("Invalid request: {err:?}"),
+                ExtractError::MethodMismatch(n) => CastError::MethodMismatch(n),
+                err @ ExtractError::JsonError { .. } => {
+                    CastError::InvalidParams(format!("Invalid request: {err:?}"))
+                }
             })
+    }
+
+    /// Answers a request that has parameters that cannot be understood.
+    fn send_invalid_params(&self, request_id: RequestId, message: String) {
+        let response = lsp_server::Response::new_err(
+            request_id,
+            lsp_server::ErrorCode::InvalidParams as i32,
+            message,
+        );
+        self.sender.send(Message::Response(response)).unwrap()
     }
 
     fn send_response<R>(&self, request_id: RequestId, params: R::Result)
@@ -205,11 +236,17 @@ impl<'a> LspServer<'a> {
     }
 
     fn handle_notification(&mut self, notification: &lsp_server::Notification) -> &'static str {
+        // A notification is never answered, so one with parameters that cannot be
+        // understood is logged and otherwise ignored.
         let _notification = match Self::cast_notification::<notification::Exit>(notification) {
             Ok(_params) => {
                 return notification::Exit::METHOD;
             }
-            Err(notification) => notification,
+            Err(CastError::MethodMismatch(notification)) => notification,
+            Err(CastError::InvalidParams(message)) => {
+                debug!("{}", message);
+                return notification::Exit::METHOD;
+            }
         };
 
         let _notification =
@@ -232,7 +269,11 @@ impl<'a> LspServer<'a> {
 
                     return notification::DidChangeTextDocument::METHOD;
                 }
-                Err(notification) => notification,
+                Err(CastError::MethodMismatch(notification)) => notification,
+                Err(CastError::InvalidParams(message)) => {
+                    debug!("{}", message);
+                    return notification::DidChangeTextDocument::METHOD;
+                }
             };
 
         let _notification =
@@ -258,7 +299,11 @@ impl<'a> LspServer<'a> {
 
                     return notification::DidChangeTextDocument::METHOD;
                 }
-                Err(notification) => notification,
+                Err(CastError::MethodMismatch(notification)) => notification,
+                Err(CastError::InvalidParams(message)) => {
+                    debug!("{}", message);
+                    return notification::DidChangeTextDocument::METHOD;
+                }
             };
 
         ""
@@ -266,7 +311,7 @@ impl<'a> LspServer<'a> {
 
     fn cast_notification<T>(
         notification: &lsp_server::Notification,
-    ) -> Result<T::Params, lsp_server::Notification>
+    ) -> Result<T::Params, CastError<lsp_server::Notification>>
     where
         T: lsp_types::notification::Notification,
         T::Params: DeserializeOwned,
@@ -276,8 +321,10 @@ impl<'a> LspServer<'a> {
             .clone()
             .extract(T::METHOD)
             .map_err(|e| match e {
-                ExtractError::MethodMismatch(n) => n,
-                err @ ExtractError::JsonError { .. } => panic!("Invalid notification: {err:?}"),
+                ExtractError::MethodMismatch(n) => CastError::MethodMismatch(n),
+                err @ ExtractError::JsonError { .. } => {
+                    CastError::InvalidParams(format!("Invalid notification: {err:?}"))
+                }
             })
     }
 
